@@ -1,6 +1,8 @@
 """C13 - balanced, semi-supervised and weighted samplers compose epochs as promised."""
 from collections import Counter
 
+import itertools
+
 import numpy as np
 import torch
 from hypothesis import strategies as st
@@ -105,16 +107,23 @@ def check_semi(spec):
     exp_eff = chunks * (L + U)
     streams = []
     exhausted = False
+    # late_counts: the sampler starts out with another chunk composition (1 + 1) and is re-configured afterwards
+    Lc, Uc = (1, 1) if spec.get("late_counts") else (L, U)
     for r in range(W):
         if spec.get("late_rank"):
             # the sampler is built before the process knows its rank; rank and world size are assigned afterwards (public attributes)
-            s = SemiSampler(ds, num_labeled=L, num_unlabeled=U, rank=0, world_size=1, seed=spec["seed"], length_mode=mode)
+            s = SemiSampler(ds, num_labeled=Lc, num_unlabeled=Uc, rank=0, world_size=1, seed=spec["seed"], length_mode=mode)
             s.rank, s.world_size = r, W
         elif spec.get("call") == "positional":
             # documented order: dataset, num_labeled, num_unlabeled, rank, world_size, seed, length_mode
-            s = SemiSampler(ds, L, U, r, W, spec["seed"], mode)
+            s = SemiSampler(ds, Lc, Uc, r, W, spec["seed"], mode)
         else:
-            s = SemiSampler(ds, num_labeled=L, num_unlabeled=U, rank=r, world_size=W, seed=spec["seed"], length_mode=mode)
+            s = SemiSampler(ds, num_labeled=Lc, num_unlabeled=Uc, rank=r, world_size=W, seed=spec["seed"], length_mode=mode)
+        if spec.get("late_counts"):
+            # the chunk composition is re-configured on the existing sampler (public attributes, e.g. a labeled/unlabeled ratio schedule):
+            # length and alternation follow the values that are set when the epoch is drawn
+            list(itertools.islice(iter(s), 3))
+            s.num_labeled, s.num_unlabeled = L, U
         s.set_epoch(spec["epoch"])
         if s.effective_length != exp_eff:
             raise Violation(f"semi:effective-length:{mode}", f"{s.effective_length} vs {exp_eff}")
@@ -207,7 +216,7 @@ BAL = st.fixed_dictionaries({"counts": COUNTS, "key": st.integers(0, 999),
                              "shuffle": st.booleans(), "W": WS, "seed": SEEDS, "epoch": st.integers(0, 50), "call": CALL, "late_spc": st.booleans()})
 SEMI = st.fixed_dictionaries({"n_labeled": st.integers(1, 12), "n_unlabeled": st.integers(1, 12), "key": st.integers(0, 999),
                               "bulk": st.sampled_from(["list", "numpy", "tensor"]), "L": st.integers(1, 4), "U": st.integers(1, 4), "W": WS,
-                              "mode": st.sampled_from(["labeled", "unlabeled", "all"]), "seed": SEEDS, "call": CALL, "late_rank": st.booleans(),
+                              "mode": st.sampled_from(["labeled", "unlabeled", "all"]), "seed": SEEDS, "call": CALL, "late_rank": st.booleans(), "late_counts": st.booleans(),
                               "epoch": st.integers(0, 50)})
 WEI = st.fixed_dictionaries({"n": st.integers(1, 40), "key": st.integers(0, 999), "zero_frac": st.sampled_from([0.0, 0.3, 0.6]),
                              "size": st.one_of(st.none(), st.integers(1, 40)), "W": WS, "seed": SEEDS, "call": CALL,
